@@ -457,6 +457,14 @@ class _Synonyms(ast.NodeTransformer):
             return ast.Slice(lower=lo, upper=up, step=stp)
         return sl
 
+    def visit_UnaryOp(self, n):
+        self.generic_visit(n)
+        # not (a is b) -> a is not b ;  not (a in b) -> a not in b   and the reverse: identity and membership tests always give a bool
+        if isinstance(n.op, ast.Not) and isinstance(n.operand, ast.Compare) and len(n.operand.ops) == 1 and isinstance(n.operand.ops[0], (ast.Is, ast.IsNot, ast.In, ast.NotIn)):
+            inv = {ast.Is: ast.IsNot, ast.IsNot: ast.Is, ast.In: ast.NotIn, ast.NotIn: ast.In}[type(n.operand.ops[0])]
+            return ast.copy_location(ast.Compare(left=n.operand.left, ops=[inv()], comparators=n.operand.comparators), n)
+        return n
+
     def visit_Subscript(self, n):
         self.generic_visit(n)
         n.slice = self._slice_call(n.slice)
@@ -933,14 +941,39 @@ def tests_of_temporaries(fnode):
 
 
 def unelse_after_exit(fnode):
-    """if c: ..; <return / raise / continue / break>  else: B     ->   if c: ..; <exit>   followed by B
-    One shape for `the other case`: an arm that leaves needs no else (elif chains are unfolded arm by arm)."""
+    """One shape for a two-way split of control.
+         if c: ..; <return / raise / continue / break>  else: B     ->   if c: ..; <exit>   followed by B      (an arm that leaves needs no else)
+       and one order of the two ways, so that `if not c: B else: A` and `if c: A else: B` read the same:
+         - the way that leaves comes first when only one leaves;
+         - when both leave (an `if` whose arm leaves, followed by statements that end in a leave, counts as such a split too): the one
+           ending in `raise` first when only one does, else the shorter one, else the one whose test carries no leading `not`;
+         - when neither leaves: the test carries no leading `not`.
+       elif chains are unfolded arm by arm."""
     changed = False
+    EXIT = (ast.Return, ast.Raise, ast.Continue, ast.Break)
+
+    def size(stmts):
+        return sum(1 for st in stmts for x in ast.walk(st) if isinstance(x, ast.stmt))
+
+    def negate(t):
+        return t.operand if isinstance(t, ast.UnaryOp) and isinstance(t.op, ast.Not) else ast.copy_location(ast.UnaryOp(op=ast.Not(), operand=t), t)
+
+    def second_first(t, A, B):
+        """for two ways A (under t) and B (otherwise) that both leave: should B come first?"""
+        ra, rb = isinstance(A[-1], ast.Raise), isinstance(B[-1], ast.Raise)
+        if ra != rb:
+            return rb
+        if size(A) != size(B):
+            return size(B) < size(A)
+        return isinstance(t, ast.UnaryOp) and isinstance(t.op, ast.Not)
 
     def block(stmts):
         nonlocal changed
         out = []
-        for st in stmts:
+        i = 0
+        stmts = list(stmts)
+        while i < len(stmts):
+            st = stmts[i]
             for fld in ("body", "orelse", "finalbody"):
                 v = getattr(st, fld, None)
                 if isinstance(v, list) and v and isinstance(v[0], ast.stmt) and not isinstance(st, (ast.FunctionDef, ast.AsyncFunctionDef, ast.ClassDef)):
@@ -948,24 +981,41 @@ def unelse_after_exit(fnode):
             if isinstance(st, ast.Try):
                 for h in st.handlers:
                     h.body = block(h.body)
-            EXIT = (ast.Return, ast.Raise, ast.Continue, ast.Break)
-            if isinstance(st, ast.If) and st.orelse and st.body and not (len(st.orelse) == 1 and isinstance(st.orelse[0], ast.If)):
-                # which arm comes first does not matter: `if not c: B else: A` is `if c: A else: B`.  One order: the arm that leaves comes
-                # first; when both or neither leave, the test carries no leading `not`
+            if isinstance(st, ast.If) and st.body and st.orelse and not (len(st.orelse) == 1 and isinstance(st.orelse[0], ast.If) and not isinstance(st.body[-1], EXIT)):
                 b_exit, e_exit = isinstance(st.body[-1], EXIT), isinstance(st.orelse[-1], EXIT)
                 negated = isinstance(st.test, ast.UnaryOp) and isinstance(st.test.op, ast.Not)
-                if (e_exit and not b_exit) or (b_exit == e_exit and negated):
-                    st.test = st.test.operand if negated else ast.copy_location(ast.UnaryOp(op=ast.Not(), operand=st.test), st.test)
+                swap = (e_exit and not b_exit) or (not b_exit and not e_exit and negated) or (b_exit and e_exit and second_first(st.test, st.body, st.orelse))
+                if swap:
+                    st.test = negate(st.test)
                     st.body, st.orelse = st.orelse, st.body
                     changed = True
+            elif isinstance(st, ast.If) and st.body and not st.orelse and isinstance(st.body[-1], EXIT) and i + 1 < len(stmts) and isinstance(stmts[-1], EXIT) \
+                    and not any(isinstance(x, (ast.FunctionDef, ast.AsyncFunctionDef, ast.ClassDef)) for x in stmts[i + 1:]):
+                # `if c: A <leave>` followed by REST <leave>: the same split written without else
+                rest = stmts[i + 1:]
+                rest = block(rest)
+                if second_first(st.test, st.body, rest):
+                    st.test = negate(st.test)
+                    A = st.body
+                    st.body = rest
+                    out.append(st)
+                    out += A
+                    changed = True
+                else:
+                    out.append(st)
+                    out += rest
+                return out
             if isinstance(st, ast.If) and st.orelse and st.body and isinstance(st.body[-1], EXIT):
                 rest = st.orelse
                 st.orelse = []
-                out.append(st)
-                out += rest
                 changed = True
-            else:
-                out.append(st)
+                # the former else arm now follows: it is the rest of this block together with what came after it
+                stmts[i + 1:i + 1] = rest
+                continue_same = True
+                # re-examine this statement in its new, else-less shape
+                continue
+            out.append(st)
+            i += 1
         return out
     fnode.body = block(fnode.body)
     return changed
@@ -1135,10 +1185,11 @@ def apply_synonyms(repo):
     respell_calls(repo)
     for f in repo.funcs.values():
         before = ast.dump(f.node)
+        f.node = _MatchToIf().visit(f.node)          # first: the passes below walk if / else arms, not match cases
         tests_of_temporaries(f.node)
-        unelse_after_exit(f.node)
         arguments_of_temporaries(f.node)
         return_of_temporary(f.node)
+        unelse_after_exit(f.node)
         if f.name == "main":
             canonical_args_local(f.node)
         if f.cls:
